@@ -137,4 +137,50 @@ theorem passTokens_printTokens (ts : List Tok) (h : ∀ t ∈ ts, selfLexing t.t
   simp only [hp]
   rw [show toPPs (relexed ts) = toPPsFrom 0 (relexed ts) from rfl, map_ofPP_toPPsFrom _ 0 hv']
 
+/-! ### any printer whose separators are blank and empty only where `need_space` allows -/
+
+def itemsWith (sep : Option Tok → Tok → List Nat) (prev : Option Tok) : List Tok → List Item
+  | [] => []
+  | t :: ts => (sep prev t, t.text) :: itemsWith sep (some t) ts
+
+theorem printWith_render (sep : Option Tok → Tok → List Nat) (prev : Option Tok) (ts : List Tok) :
+    printWith sep prev ts = render (itemsWith sep prev ts) ++ [10] := by
+  induction ts generalizing prev with
+  | nil => rfl
+  | cons t ts ih => simp [printWith, itemsWith, render, ih]
+
+theorem okItems_itemsWith (sep : Option Tok → Tok → List Nat)
+    (hb : ∀ p t, isBlank (sep p t) = true)
+    (hn : ∀ p t, sep (some p) t = [] → Gen.Lex.needSpace p.text t.text = false)
+    (ts : List Tok) (h : ∀ t ∈ ts, selfLexing t.text = true) :
+    ∀ prev, okItems (itemsWith sep prev ts) := by
+  induction ts with
+  | nil => intro prev; trivial
+  | cons t ts ih =>
+    intro prev
+    refine ⟨hb prev t, h t (List.mem_cons_self ..), ?_,
+      ih (fun x hx => h x (List.mem_cons_of_mem _ hx)) (some t)⟩
+    cases ts with
+    | nil => trivial
+    | cons t2 ts' => exact fun h0 => hn t t2 h0
+
+theorem itemsWith_text (sep : Option Tok → Tok → List Nat) (ts : List Tok) :
+    ∀ prev, (itemsWith sep prev ts).map (·.2) = ts.map (·.text) := by
+  induction ts with
+  | nil => intro prev; rfl
+  | cons t ts ih => intro prev; simp [itemsWith, ih]
+
+theorem lex_printWith (sep : Option Tok → Tok → List Nat)
+    (hb : ∀ p t, isBlank (sep p t) = true)
+    (hn : ∀ p t, sep (some p) t = [] → Gen.Lex.needSpace p.text t.text = false)
+    (ts : List Tok) (h : ∀ t ∈ ts, selfLexing t.text = true) :
+    lex (printWith sep none ts) = .ok (tokensOf (true, false) (itemsWith sep none ts)) := by
+  rw [printWith_render]
+  exact lex_items _ [10] (okItems_itemsWith sep hb hn ts h none) rfl
+
+theorem printWith_sepBefore (prev : Option Tok) (ts : List Tok) : printWith sepBefore prev ts = printFrom prev ts := by
+  induction ts generalizing prev with
+  | nil => rfl
+  | cons t ts ih => simp [printWith, printFrom, ih]
+
 end ChibiVerif.C19Convert
